@@ -111,7 +111,13 @@ where
                     }),
                     Ok(Ok(Response {
                         result: Err(err), ..
-                    })) => Err(err.into()),
+                    })) => {
+                        // The child exits after reporting an error (it
+                        // cannot recover from a panic), so start a new
+                        // one before the next request.
+                        break_out = true;
+                        Err(err.into())
+                    }
                     Ok(Err(Error::ReadFailed(err))) if err.kind() == ErrorKind::UnexpectedEof => {
                         break_out = true;
                         Err(Error::Crashed)
